@@ -460,7 +460,7 @@ func (c *MJSocialElementComponent) getAttribute(name string) string {
 		if name == constants.MJMLFontFamily {
 			c.TrackFontFamily(value)
 		}
-		return value
+		return normalizeAttributeValue(name, value)
 	}
 
 	// 2. Check mj-class definitions for the element
@@ -489,7 +489,7 @@ func (c *MJSocialElementComponent) getAttribute(name string) string {
 				if name == constants.MJMLFontFamily {
 					c.TrackFontFamily(parentValue)
 				}
-				return parentValue
+				return normalizeAttributeValue(name, parentValue)
 			}
 			// Then check parent's resolved attribute (includes global attributes)
 			if parentResolved := c.parentSocial.getAttribute(name); parentResolved != "" {
